@@ -1,3 +1,4 @@
+\* quick tier, configuration S as coded (generated by props/_txpipe.cfg_text; the check generates its cfgs at run time)
 SPECIFICATION Spec
 CONSTANTS
   Txs <- TxAll
@@ -6,19 +7,22 @@ CONSTANTS
   LowGas <- LowGasAll
   Price <- PriceAll
   Drains <- DrainsAll
-  SubmitTxs <- SubmitQ
+  SubmitTxs <- SubmitS
+  StaleTxs <- NoStale
   Kinds <- KindsH
-  Blocks <- BlocksQ
-  VLists <- VListsQ
-  Cap = 2
+  Blocks <- BlocksS
+  VLists <- VListsS
+  ByCounts <- ByCountT
+  QuietVerify = TRUE
+  Cap = 1
   Lim = 2
   MaxTx = 1
-  PreExec = TRUE
   H0 = 1
   MaxHeight = 2
   MaxLag = 1
   MaxFly = 3
   MaxPerTx = 1
+  PreExec = TRUE
   InvertedExpiry = TRUE
   CheckThenActCap = TRUE
   SlotOverReturn = TRUE
